@@ -152,5 +152,28 @@ Definition setters_ok : bool :=
   list_eqb eq4 global_helpers [("yrx_scanner_set_global", "set_global", "ident", "value");
                                ("yrx_compiler_define_global", "define_global", "ident", "value")].
 
+(* --- simple setters: the argument is handed to the Rust object unchanged; the timeout is converted
+   with the constructor of the unit the header documents ("Sets a timeout (in seconds)") --- *)
+Definition duration_of_unit (u : string) : option string :=
+  if String.eqb u "seconds" then Some "Duration::from_secs(timeout)"
+  else if String.eqb u "milliseconds" then Some "Duration::from_millis(timeout)"
+  else None.
+Definition calls_of (f : string) := filter (fun r => String.eqb (fst (fst r)) f) inner_calls.
+Definition expected_inner_calls : list (string * string * string) :=
+  [("yrx_scanner_fast_scan", "fast_scan", "yes");
+   ("yrx_scanner_max_matches_per_pattern", "max_matches_per_pattern", "n");
+   ("yrx_compiler_max_warnings", "max_warnings", "n");
+   ("yrx_compiler_new_namespace", "new_namespace", "namespace");
+   ("yrx_compiler_ignore_module", "ignore_module", "module");
+   ("yrx_compiler_ban_module", "ban_module", "module,err_title,err_msg");
+   ("yrx_compiler_enable_feature", "enable_feature", "feature");
+   ("yrx_compiler_add_include_dir", "add_include_dir", "dir")].
+Definition inner_calls_ok : bool :=
+  forallb (fun e => list_eqb eq3 (calls_of (fst (fst e))) [e]) expected_inner_calls &&
+  match duration_of_unit header_timeout_unit with
+  | Some d => list_eqb eq3 (calls_of "yrx_scanner_set_timeout") [("yrx_scanner_set_timeout", "set_timeout", d)]
+  | None => false
+  end.
+
 Definition values_table_ok : bool :=
-  out_params_ok && structs_ok && buffers_ok && loops_ok && c_strings_ok && meta_ok && setters_ok.
+  out_params_ok && structs_ok && buffers_ok && loops_ok && c_strings_ok && meta_ok && setters_ok && inner_calls_ok.
